@@ -151,7 +151,7 @@ def run_k2(facts, ctx, inv=None, watch=()):
 
     def on_store(state, cell, path, v, node):
         if cell == row_cell and path and path[0][0] == "field":
-            res.stores.append((path, v, state.pc, "update"))
+            res.stores.append((path, v, state.pc, state.ctl))
     I.on_store = on_store
     try:
         b = facts.one("get_downlink_format")
